@@ -5,6 +5,8 @@ package main
 
 import (
 	"context"
+	"math"
+	"strconv"
 	"errors"
 	"fmt"
 	"sort"
@@ -638,7 +640,14 @@ func runXS(c *Case) *Obs {
 	p, _ := protect(func() {
 		var out [][]int
 		if c.Cfg["fn"].(string) == "chunk" {
-			out = xslicesChunk(l, num(c.Cfg["n"]))
+			n := 0
+			if sv, ok := c.Cfg["n"].(string); ok { // "maxint-K": sizes that do not survive JSON numbers
+				k, _ := strconv.Atoi(sv[len("maxint-"):])
+				n = math.MaxInt - k
+			} else {
+				n = num(c.Cfg["n"])
+			}
+			out = xslicesChunk(l, n)
 		} else {
 			out = xslicesRuns(l, relOf(c.Cfg["r"]))
 		}
